@@ -170,10 +170,11 @@ def configs(tier):
 # binding with real models
 
 def run_real(acc, model_name, n_iter, frac, power):
+    """Complete fits through `algo.run`; the SAME algorithm instance is then run a second time on a fresh model
+    (an algorithm object may be reused: every run must follow the schedule from its own first iteration)."""
     from ..models import MODEL_SPECS, build_model, cohort_dataset
 
     spec = MODEL_SPECS[model_name]
-    model = build_model(spec)
     ds = cohort_dataset(["a", "b", "d"], spec)
     case = {"kind": "real", "model": model_name, "n_iter": n_iter, "frac": frac, "power": power}
     with warnings.catch_warnings():
@@ -181,55 +182,65 @@ def run_real(acc, model_name, n_iter, frac, power):
         settings = AlgorithmSettings("mcmc_saem", n_iter=n_iter, progress_bar=False, seed=0,
                                      n_burn_in_iter_frac=frac, burn_in_step_power=power)
         algo = algorithm_factory(settings)
+    n_b = int(frac * n_iter)
+    for run_index in (1, 2):
+        model = build_model(spec)
         rec = {"s": [], "S": [], "burn": []}
         cls = type(model)
         orig_css, orig_up = cls.compute_sufficient_statistics, cls.update_parameters
 
-        def css(state, _o=orig_css):
+        def css(state, _o=orig_css, rec=rec):
             out = _o.__func__(cls, state)
             rec["s"].append({k: _val(v) for k, v in out.items()})
             return out
 
-        def up(state, sufficient_statistics, *, burn_in, _o=orig_up):
+        def up(state, sufficient_statistics, *, burn_in, _o=orig_up, rec=rec):
             rec["S"].append({k: _val(v) for k, v in sufficient_statistics.items()})
             rec["burn"].append(burn_in)
             return _o.__func__(cls, state, sufficient_statistics, burn_in=burn_in)
 
         model.compute_sufficient_statistics = css
         model.update_parameters = up
-        try:
-            algo.run(model, ds)
-        except Exception as e:
-            acc.violation(f"fit|{type(e).__name__} during a real fit|{model_name}", f"{e}", case)
+        which = "first run" if run_index == 1 else "second run of the same algorithm object"
+        with warnings.catch_warnings():
+            warnings.simplefilter("ignore")
+            try:
+                algo.run(model, ds)
+            except Exception as e:
+                acc.violation(f"fit|{type(e).__name__} during a real fit|{which}", f"{model_name}: {e}", dict(case, run=run_index))
+                return
+        acc.evaluation()
+        acc.nontriv(repr((model_name, n_iter, frac, power, run_index)))
+        if len(rec["s"]) != n_iter or len(rec["S"]) != n_iter:
+            acc.violation(f"fit|not one maximisation per iteration|{which}", f"{len(rec['s'])} statistics for {n_iter} iterations", dict(case, run=run_index))
             return
-    n_b = int(frac * n_iter)
-    acc.evaluation()
-    acc.nontriv(repr((model_name, n_iter, frac, power)))
-    if len(rec["s"]) != n_iter or len(rec["S"]) != n_iter:
-        acc.violation("fit|not one maximisation per iteration|", f"{len(rec['s'])} statistics for {n_iter} iterations", case)
-        return
-    S_prev = None
-    for k in range(1, n_iter + 1):
-        acc.state()
-        acc.transition()
-        s_k, S_k = rec["s"][k - 1], rec["S"][k - 1]
-        phase = "memory-less" if k <= n_b else ("first iteration after the memory-less phase" if k == n_b + 1 else "with memory")
-        acc.outcome(f"real:{phase}")
-        if rec["burn"][k - 1] != (k <= n_b):
-            acc.violation(f"fit|burn-in flag passed to the update|{phase}", f"k={k}", case)
-        for name, v in s_k.items():
-            v64 = v
-            if k <= n_b + 1:
-                exp = v64
-            else:
-                e = float(k - n_b) ** (-power)
-                exp = (1 - e) * S_prev[name] + e * v64
-            got = S_k[name]
-            if not torch.allclose(got, exp, rtol=1e-5, atol=1e-6, equal_nan=True):
-                acc.violation(f"fit|statistics are not the documented combination|{phase}",
-                              f"k={k} '{name}': got {got.reshape(-1)[:4].tolist()} expected {exp.reshape(-1)[:4].tolist()}", case)
+        S_prev = None
+        for k in range(1, n_iter + 1):
+            acc.state()
+            acc.transition()
+            s_k, S_k = rec["s"][k - 1], rec["S"][k - 1]
+            phase = "memory-less" if k <= n_b else ("first iteration after the memory-less phase" if k == n_b + 1 else "with memory")
+            acc.outcome(f"real:{phase}")
+            if rec["burn"][k - 1] != (k <= n_b):
+                acc.violation(f"fit|burn-in flag passed to the update|{phase}, {which}", f"k={k}", dict(case, run=run_index))
+            bad = False
+            for name, v in s_k.items():
+                v64 = v
+                if k <= n_b + 1:
+                    exp = v64
+                else:
+                    e = float(k - n_b) ** (-power)
+                    exp = (1 - e) * S_prev[name] + e * v64
+                got = S_k[name]
+                if got.shape != exp.shape or not torch.allclose(got, exp, rtol=1e-5, atol=1e-6, equal_nan=True):
+                    acc.violation(f"fit|statistics are not the documented combination|{phase}, {which}",
+                                  f"k={k} '{name}': got {got.reshape(-1)[:4].tolist()} expected {exp.reshape(-1)[:4].tolist()}",
+                                  dict(case, run=run_index))
+                    bad = True
+                    break
+            if bad:
                 break
-        S_prev = dict(S_k)
+            S_prev = dict(S_k)
 
 
 # ------------------------------------------------------------------------------------------
